@@ -406,6 +406,85 @@ def _corpus_worker(args):
     return out
 
 
+def _mutant_worker(args):
+    """Variants of a corpus file (a word / a line dropped, a line truncated): whenever one still loads
+    successfully, every guaranteed attribute must be set."""
+    name, seeds = args
+    warnings.simplefilter("ignore")
+    import random
+    import signal
+
+    from iodata import load_one
+    from iodata.api import FORMAT_MODULES, _select_format_module
+    from iodata.utils import FileFormatError
+
+    path = REPO / "iodata" / "test" / "data" / name
+    fmt = "json_qcschema" if name.endswith(".json") else None
+    try:
+        mod = _select_format_module(str(path), "load_one", fmt)
+        lines = path.read_text().splitlines(keepends=True)
+    except (FileFormatError, UnicodeDecodeError):
+        return []
+    modname = [n for n, m in FORMAT_MODULES.items() if m is mod][0]
+    out = []
+
+    class _TO(BaseException):
+        pass
+
+    def _alarm(signum, frame):
+        raise _TO()
+
+    old = signal.signal(signal.SIGALRM, _alarm)
+    try:
+        with tempfile.TemporaryDirectory(prefix="c17m-") as tmp:
+            for sd in seeds:
+                rng = random.Random(f"{name}-{sd}")
+                new = list(lines)
+                head = min(len(new), 14)
+                kind = rng.choice(["dropword", "dropword", "dropline", "cutline", "dropsection"])
+                if not new:
+                    continue
+                i = rng.randrange(head) if rng.random() < 0.7 else rng.randrange(len(new))
+                if kind == "dropword":
+                    ws = new[i].split()
+                    if len(ws) < 2:
+                        continue
+                    k = rng.randrange(len(ws))
+                    # remove the k-th word but keep the rest of the line as it is
+                    pos = 0
+                    for _ in range(k + 1):
+                        while pos < len(new[i]) and new[i][pos].isspace():
+                            pos += 1
+                        start = pos
+                        while pos < len(new[i]) and not new[i][pos].isspace():
+                            pos += 1
+                    new[i] = new[i][:start] + new[i][pos:]
+                elif kind == "dropline":
+                    del new[i]
+                elif kind == "cutline":
+                    new[i] = new[i][: rng.randrange(len(new[i]) + 1)].rstrip("\n") + "\n"
+                else:  # drop a run of lines (an optional section)
+                    j = min(len(new), i + rng.randint(2, 12))
+                    del new[i:j]
+                target = os.path.join(tmp, name)
+                with open(target, "w") as fh:
+                    fh.write("".join(new))
+                signal.alarm(30)
+                try:
+                    data = load_one(target, fmt=fmt)
+                    status, missing = "loaded", _missing(data, mod.load_one.guaranteed)
+                except _TO:
+                    status, missing = "timeout", []
+                except Exception as exc:
+                    status, missing = "raises:" + type(exc).__name__, []
+                finally:
+                    signal.alarm(0)
+                out.append((name, sd, kind, modname, status, missing))
+    finally:
+        signal.signal(signal.SIGALRM, old)
+    return out
+
+
 def _pool_objects():
     """small loaded objects used as starting points for the required-attribute test"""
     warnings.simplefilter("ignore")
@@ -532,6 +611,25 @@ def search(ctx):
                          f"{modname}.{op} declares {a} as guaranteed but it is None after loading {name}",
                          {"kind": "guaranteed", "file": name, "op": op, "module": modname, "attr": a})
     ctx.extra_cov["corpus_objects_checked_against_guaranteed"] = nloaded
+    # (2b) mutated corpus files that still load must satisfy the guaranteed list, too
+    small = [n for n in corpus if (REPO / "iodata" / "test" / "data" / n).stat().st_size < 40_000
+             and not n.endswith((".molden", ".mkl", ".mwfn", ".molden.input")) and "cp2k" not in n]
+    per = ctx.n(6, 40) * (3 if ctx.escalated else 1)
+    base = ctx.rng.randrange(10**6)
+    with Pool(min(16, os.cpu_count() or 1)) as pool:
+        mres = pool.map(_mutant_worker, [(n, list(range(base, base + per))) for n in small], chunksize=2)
+    nmut = 0
+    for res in mres:
+        for name, sd, kind, modname, status, missing in res:
+            nmut += status == "loaded"
+            ctx.count("search-guaranteed-mutants", [name, sd], f"{modname}/{kind}/{status.split(':')[0]}" + ("/guaranteed-none" if missing else ""),
+                      nontrivial=status == "loaded")
+            for a in missing:
+                ctx.fail(f"guaranteed-none:{modname}.load_one:{a}",
+                         f"{modname}.load_one declares {a} as guaranteed but it is None after loading a variant of {name} "
+                         f"({kind}, seed {sd}) that loads without error",
+                         {"kind": "guaranteed-mutant", "file": name, "seed": sd, "module": modname, "attr": a})
+    ctx.extra_cov["mutated_files_loaded_and_checked_against_guaranteed"] = nmut
     # (3) required attributes are enforced before the file is opened
     objs = _pool_objects()
     from iodata.api import FORMAT_MODULES
@@ -548,7 +646,14 @@ def search(ctx):
                     ctx.fail(bad[0], bad[1], {"kind": "required", "module": modname, "op": op, "attr": attr, "base": bname})
 
 
+def _replay_mutant(inp):
+    res = _mutant_worker((inp["file"], [inp["seed"]]))
+    return any(inp["attr"] in r[5] for r in res)
+
+
 def replay(ctx, obj):
+    if obj["input"].get("kind") == "guaranteed-mutant":
+        return _replay_mutant(obj["input"])
     inp = obj["input"]
     if inp["kind"] == "select":
         return check_select(inp["path"], inp["attr"], inp["fmt"]) is not None
